@@ -46,6 +46,14 @@ def run(prog, res):
   res.floor('I4', 1)
   _equal_slopes_sum(prog, res)
   res.floor('I5', 1)
+  # the initialisers read the same string hyper-parameters as the validators
+  # and projections: spellings accepted through .lower() are never compared
+  # raw (a 'Valley' joint unimodality must start valley-shaped)
+  from ..rules import spelling as _sp
+  _sp.check_case_agreement(prog, res, ['lattice_lib', 'lattice_layer', 'utils',
+                                       'pwl_calibration_layer',
+                                       'pwl_calibration_lib'])
+  res.floor('V3c', 8)
   res.floor('K5', 20)
   res.floor('I3', 2)
   res.floor('W1', 8)
